@@ -56,6 +56,7 @@ CHILDREN = {
     "Minimize": lambda: hg.Minimize(qy),
     "Maximize": lambda: hg.Maximize(qy),
     "Bin2": lambda: hg.Bin(2, 0.0, 1.0, qy, hg.Count()),
+    "Bin3": lambda: hg.Bin(3, 0.0, 1.0, qy, hg.Count()),
     "Sparse": lambda: hg.SparselyBin(0.5, qy, hg.Count()),
     "Bag": lambda: hg.Bag(qy, "N"),
 }
@@ -379,7 +380,7 @@ def incompatible_pairs(K):
         except Exception:
             pass
     if K not in LEAVES:
-        for c1, c2 in (("Count", "Sum"), ("Bin2", "Sparse"), ("Average", "Deviate")):
+        for c1, c2 in (("Count", "Sum"), ("Bin2", "Sparse"), ("Average", "Deviate"), ("Bin2", "Bin3")):
             out.append((f"children {c1} vs {c2}", lambda c1=c1, c2=c2: (make(K, c1), make(K, c2))))
     return out
 
@@ -1353,6 +1354,7 @@ def chk_pickle():
         yield "Label", lambda: hg.Label(a=hg.Sum(q), b=hg.Sum(q))
         yield "Branch", lambda: hg.Branch(hg.Count(), hg.Bin(2, 0, 2, q))
         yield "Branch-count-last", lambda: hg.Branch(hg.Sum(q), hg.Count())
+        yield "Bag-N", lambda: hg.Bag(q, "N")
         yield "Bin-of-CentrallyBin", lambda: hg.Bin(2, 0.0, 3.0, q, hg.CentrallyBin([0.0, 1.0, 2.5], q))
 
     for qn, q in quantities.items():
@@ -1386,6 +1388,20 @@ def chk_pickle():
                         return f"{tn}[{qn}] {state}: filling the {who} after the round trip raised {e!r}"
                 if not approx_eq(h.toJson(), c.toJson()):
                     return f"{tn}[{qn}] {state}: clone and original diverge under the same further fills: {js(h)[:200]} vs {js(c)[:200]}"
+    # a vector-range Bag whose rows share one NaN object (math.nan): keys must keep matching after the round trip
+    import math as _math
+
+    for mk in (lambda: hg.Bag(lambda d: (d["x"], d["y"]), "N2"), lambda: hg.UntypedLabel(v=hg.Bag(lambda d: (d["x"], d["y"]), "N2"), c=hg.Count())):
+        h = mk()
+        vrows = [{"x": _math.nan, "y": 1.0}, {"x": 2.0, "y": _math.nan}, {"x": _math.nan, "y": 1.0}]
+        fill_all(h, vrows)
+        c = pickle.loads(pickle.dumps(h))
+        if js(c) != js(h):
+            return "vector Bag: clone content differs"
+        fill_all(h, vrows)
+        fill_all(c, vrows)
+        if js(c) != js(h) or not (c == h):
+            return f"vector Bag: clone and original diverge under the same further fills: {js(h)[:160]} vs {js(c)[:160]}"
     # reloaded-from-JSON containers pickle too
     h = fill_all(hg.Bin(3, 0.0, 3.0, lambda d: d["x"], hg.Sum(lambda d: d["y"])), rows)
     r = hg.Factory.fromJson(h.toJson())
@@ -1485,7 +1501,7 @@ def chk_numpy(K, skip=(), only_kids=None, exclude_kids=()):
         for off in (0, 3):
             sel = [(xs[(off + i) % len(xs)], cats[(off + i) % len(cats)]) for i in range(n)]
             batches.append(sel)
-    weights_variants = ["one", "scalar", "array"]
+    weights_variants = ["one", "scalar", "array", "array-mean-one"]
     if K == "Count":
         return None  # a bare Count has no quantity: outside the property (no fill.numpy entry point)
     child_kinds_ = ["Count"] if K in LEAVES else ["Count", "CountT", "CountTC", "Sum", "Average", "Deviate", "Minimize", "Bin2"]
@@ -1508,10 +1524,16 @@ def chk_numpy(K, skip=(), only_kids=None, exclude_kids=()):
                     wlist, warg = [1.0] * len(rows), None
                 elif wv == "scalar":
                     wlist, warg = [0.5] * len(rows), 0.5
+                elif wv == "array-mean-one":
+                    # not all ones, but summing to the number of rows
+                    wlist = [(2.0, 0.0, 0.5, 1.5)[i % 4] for i in range(len(rows))]
+                    if len(rows) % 2:
+                        wlist[-1] = 1.0
+                    warg = np.array(wlist)
                 else:
                     wlist = [(1.0, 0.0, 2.0, 0.5)[i % 4] for i in range(len(rows))]
                     warg = np.array(wlist)
-                for split in (None, 1) if len(rows) > 1 else (None,):
+                for split in ((None, 1, 2, len(rows) // 2) if len(rows) > 3 else (None, 1)) if len(rows) > 1 else (None,):
                     a, b = mk(ck), mk(ck)
                     xin, win = x.copy(), (warg.copy() if isinstance(warg, np.ndarray) else None)
                     try:
